@@ -190,11 +190,11 @@ struct Machine {
             }
             release(i);
             polyseed_data* s = nullptr; const polyseed_lang* lo = nullptr; if (wr.enabled) { wr.malloc_calls = wr.free_calls = 0; wr.window = true; }
-            arm_now(); int st = expl ? (int)polyseed_decode_explicit(phrase.c_str(), (polyseed_coin)B, use, &s) : (int)polyseed_decode(phrase.c_str(), (polyseed_coin)B, &lo, &s); k.disarm(); if (wr.enabled) wr.window = false;
+            arm_now(); int st = expl ? (int)polyseed_decode_explicit(phrase.c_str(), (polyseed_coin)B, use, &s) : (int)polyseed_decode(phrase.c_str(), (polyseed_coin)B, (o.b & 0x40) ? nullptr : &lo, &s); k.disarm();   /* lang_out is optional */ if (wr.enabled) wr.window = false;
             if (st == 0) { ptr[i] = s; owned[i] = true; slot[i] = (expect == model::OK) ? src : lib::abstract(s); }
             if (observed_fail()) { saw_alloc_fail = true; if (st != model::MEMORY) err = std::string("the allocator failed during ") + what + " but the status is " + model::status_name(st); else if (fl.check_model && expect != model::OK && expect != model::UNSUPPORTED && expect != -1) err = std::string(what) + ": allocation attempted although the outcome must be " + model::status_name(expect); }
             else if (fl.check_model && expect >= 0 && st != expect) err = std::string(what) + " returned " + model::status_name(st) + ", model says " + model::status_name(expect) + " (phrase kind " + std::to_string(kind) + ", language " + le.name_en + ", coins " + std::to_string(A) + "/" + std::to_string(B) + ", mask " + std::to_string(mask) + ")";
-            else if (fl.check_model && st == 0 && !expl && lo != le.lang) err = "decode reported another language than the phrase was encoded in";
+            else if (fl.check_model && st == 0 && !expl && !(o.b & 0x40) && lo != le.lang) err = "decode reported another language than the phrase was encoded in";
             if (st != 0) saw_failed_ctor = true; cls[std::string(expl ? "decode_explicit:" : "decode:") + model::status_name(st)]++; cls[std::string(expl ? "cell:decode_explicit/" : "cell:decode/") + model::status_name(observed_fail() && expect >= 0 ? expect : st) + (fail_mask ? "/armed" : "/unarmed")]++; if (ambiguous) cls["decode:ambiguous-phrase"]++;
         } break;
         case CRYPT: {
